@@ -15,7 +15,12 @@ PROP = dict(
          "independent framing (intact, truncated, out-of-bounds length, bit/byte faults in every region), "
          "encryptedConn.send through one cipher at offsets, handshake packet from explicit (keys, shared, params) "
          "incl. too short shared secrets, spec-server accept/reply; AES-256-CTR and SHA-256 against Go's library. "
-         "thorough adds the 8 MiB-64 / 8 MiB-63 payloads once.",
+         "go.adnl.concurrent: 2..16 goroutines x 5..40 packets calling Connection.Send on ONE connection at the same time "
+         "(GOMAXPROCS >= 4): the independent server must receive intact frames carrying exactly the multiset sent, per-goroutine "
+         "order kept, and the wire bytes must equal the model's single continuous cipher over the frames in arrival order. "
+         "go.adnl.coalesced: the server writes the handshake confirmation and the first 1..6 packets in ONE Write, or cut at "
+         "every byte position 0..140 (inside / right behind the confirmation) and at random later positions: every packet must "
+         "come out of Responses(). thorough adds the 8 MiB-64 / 8 MiB-63 payloads once.",
     trusted_base=[
         "hand model lean/TongoModel/Adnl.lean tied to liteclient/adnl.go, encrypted_conn.go by exact byte comparison on every run "
         "(pure ops through the standard line diff; bytes observed on the real socket are handed to the compiled model by the "
